@@ -794,6 +794,7 @@ func runC15(cw *caseWriter, tier string, seed uint64) {
 	// timings go to stderr so that the case file stays a function of (tier, seed)
 	fmt.Fprintf(os.Stderr, "c15: %d scripts traced in %v, crash images %v, explicit images %v\n", len(jobs), tTrace.Round(time.Millisecond), tImg.Round(time.Millisecond), tX.Round(time.Millisecond))
 	runC15fail(cw, tier, seed)
+	runC15big(cw, tier, seed)
 }
 
 // replay support: the program of the last script is kept, so that replaying the many 1502 cases of
